@@ -26,7 +26,7 @@ PresetDefault(p) == CASE p = 0 -> 10 [] p = 1 -> 20 [] OTHER -> 30
 PresetDefault2(p) == CASE p = 0 -> 1 [] p = 1 -> 2 [] OTHER -> 3
 FxLevelDefault(t) == CASE t = 0 -> 11 [] t = 1 -> 22 [] OTHER -> 33
 PresetDefault3(p) == CASE p = 0 -> 5 [] p = 1 -> 6 [] OTHER -> 7
-OptionNames == << <<122, 101, 114, 111>>, <<111, 110, 101>>, <<116, 119, 111>> >>          \* zero one two
+OptionNames == << <<122, 101, 114, 111>>, <<111, 110, 101>>, <<116, 119, 111>>, <<111, 110, 101, 50>> >>          \* zero one two one2 (the last one extends the name of an earlier option)
 \* a concrete parameter: where it lives, its kind and declared bounds (NoBound = absent)
 \* i: index of the enumerated sub-tree (subs#2), j: element of an array inside a sub-tree (0: not an array element)
 Scalar(f, kind, lo, hi) == [where |-> "top", f |-> f, i |-> 0, j |-> 0, kind |-> kind, lo |-> lo, hi |-> hi]
@@ -78,7 +78,7 @@ PutV(s, p, v) == CASE p.where = "top" -> [s EXCEPT ![p.f] = v] [] p.where = "arr
 \* ------------------------------------------------------------------ Set / Get (C14)
 Clamp(v, lo, hi) == IF v < lo THEN lo ELSE IF v > hi THEN hi ELSE v
 Narrow8(v) == ((v + 128) % 256) - 128                              \* conversion to the char-backed storage of rParam / rArrayI
-OptionIndex(name) == CHOOSE i \in 0..2 : OptionNames[i + 1] = name
+OptionIndex(name) == CHOOSE i \in 0..3 : OptionNames[i + 1] = name
 \* the value stored by a message [ty, v] to parameter p (TRUE/FALSE for toggles)
 Stored(p, ty, v) ==
   CASE p.kind \in {"c", "I"} -> Clamp(Narrow8(v), p.lo, p.hi)
